@@ -220,16 +220,16 @@ def _run_history(name, row, hid, key, tag, specs, kwtwin, sample_shape=None, ops
     traces = {False: None, True: None}     # current trace per form
     cur = dict(a=0, v=0, s=0)
 
-    def emit(op, cons, sel, a1, vc_id, fresh, results, status):
+    def emit(op, cons, sel, a1, vc_id, fresh, results, status, via=""):
         """results: list (per form) of dict(v1, s1, w, disc, dt, shp)"""
         prim = results[0] if results else None
         e = dict(h=hid, i=len(H.events) + 1, dist=name, tag=tag, op=op, cons=cons, sel=int(sel),
                  a0=cur["a"], a1=a1, v0=cur["v"], vc=vc_id, s0=cur["s"], status=status,
                  raised=status.startswith("raised:"),
-                 v1=0, s1=0, w=0, disc=0, fresh=bool(fresh), lp1=0, lp0=0, lpc=0, fin=True, big=0,
+                 v1=0, s1=0, w=0, disc=0, ar=a1, via=via, fresh=bool(fresh), lp1=0, lp0=0, lpc=0, fin=True, big=0,
                  sup=True, dt=row["dtype"], dtdoc=row["dtype"], shp=[], shpdoc=[], twins=[])
         if prim is not None:
-            e.update(v1=prim["v1"], s1=prim["s1"], w=prim["w"], disc=prim["disc"])
+            e.update(v1=prim["v1"], s1=prim["s1"], w=prim["w"], disc=prim["disc"], ar=prim.get("ar", a1))
             lps = [H.lp(a1, specs, prim["v1"]), H.lp(cur["a"], specs, cur["v"]) if cur["a"] else 0,
                    H.lp(a1, specs, vc_id)]
             e["fin"] = all(x is not None for x in lps) and all(x is not None for x in (prim["s1"], prim["w"]))
@@ -251,12 +251,32 @@ def _run_history(name, row, hid, key, tag, specs, kwtwin, sample_shape=None, ops
         if prim is not None and op in ("simulate", "generate", "update", "regenerate"):
             cur.update(a=a1, v=prim["v1"], s=e["s1"])
 
-    def obs(tr, w=None, bwd=None):
+    def args_ix(tr, form, prefer):
+        """Which argument point the trace RECORDS (tr.get_args()): index, or 0 if none matches."""
+        import numpy as np
+        try:
+            got = jax.tree_util.tree_leaves(tr.get_args())
+            for ai in [prefer] + [i for i in specs if i != prefer]:
+                want = jax.tree_util.tree_leaves(args_of(ai, form))
+                if len(got) == len(want) and all(np.shape(g) == np.shape(x) and np.allclose(np.asarray(g), np.asarray(x))
+                                                 for g, x in zip(got, want)):
+                    return ai
+        except Exception:
+            pass
+        return 0
+
+    def obs(tr, w=None, bwd=None, form=False, a1=0):
         import numpy as np
         v = tr.get_retval()
         return dict(v1=H.vid(v), s1=_fx(tr.get_score()), w=0 if w is None else _fx(w),
-                    disc=0 if bwd is None else disc_id(bwd),
+                    disc=0 if bwd is None else disc_id(bwd), ar=args_ix(tr, form, a1),
                     dt=str(np.asarray(v).dtype), shp=list(np.asarray(v).shape))
+
+    def closure_of(a):
+        """dist(*args, **kwargs): the closure spelling, parameters bound in the closure."""
+        if len(a) == 2 and isinstance(a[0], tuple) and isinstance(a[1], dict):
+            return dist(*a[0], **a[1])
+        return dist(*a)
 
     def step(op, cons="none", sel=0, a1=None, vc=None, changed=True, twin_ok=True):
         a1 = a1 if a1 is not None else cur["a"]
@@ -266,7 +286,7 @@ def _run_history(name, row, hid, key, tag, specs, kwtwin, sample_shape=None, ops
         status = "ok"
         fresh = False
         starts = op in ("simulate", "generate", "importance")
-        mutates = starts or op in ("update", "trupdate", "regenerate")
+        mutates = starts or op in ("update", "trupdate", "trupdate0", "clupdate", "regenerate")
         use = [False]
         if len(forms) > 1 and twin_ok and (starts or op == "assess" or traces[True] is not None):
             use.append(True)
@@ -284,7 +304,7 @@ def _run_history(name, row, hid, key, tag, specs, kwtwin, sample_shape=None, ops
                     if op == "simulate":
                         tr = dist.simulate(key, args)
                         traces[form] = tr
-                        results.append(obs(tr))
+                        results.append(obs(tr, form=form, a1=a1))
                         fresh = True
                     elif op == "assess":
                         v = H.valobj[cur["v"]]
@@ -293,29 +313,41 @@ def _run_history(name, row, hid, key, tag, specs, kwtwin, sample_shape=None, ops
                     elif op == "generate":
                         tr, w = dist.generate(key, chm_of(cons, vc), args)
                         traces[form] = tr
-                        results.append(obs(tr, w))
+                        results.append(obs(tr, w, form=form, a1=a1))
                         fresh = cons in ("none", "maskF")
                     elif op == "importance":
                         tr, w = dist.importance(key, chm_of(cons, vc), args)
                         traces[form] = tr
-                        results.append(obs(tr, w))
+                        results.append(obs(tr, w, form=form, a1=a1))
                         fresh = cons in ("none", "maskF")
                     elif op == "update":
                         ad = Diff.unknown_change(args) if changed else Diff.no_change(args)
                         tr, w, _rd, bwd = dist.edit(key, traces[form], Update(chm_of(cons, vc)), ad)
                         traces[form] = tr
-                        results.append(obs(tr, w, bwd))
+                        results.append(obs(tr, w, bwd, form=form, a1=a1))
                     elif op == "trupdate":
                         ad = Diff.unknown_change(args) if changed else Diff.no_change(args)
                         tr, w, _rd, bwd = traces[form].update(key, chm_of(cons, vc), ad)
                         traces[form] = tr
-                        results.append(obs(tr, w, bwd))
+                        results.append(obs(tr, w, bwd, form=form, a1=a1))
+                    elif op == "trupdate0":      # Trace.update with DEFAULT argdiffs: no_change(trace.get_args())
+                        tr, w, _rd, bwd = traces[form].update(key, chm_of(cons, vc))
+                        traces[form] = tr
+                        results.append(obs(tr, w, bwd, form=form, a1=a1))
+                    elif op == "clupdate":       # closure spelling dist(params).update(key, trace, chm, ())
+                        tr, w, _rd, bwd = closure_of(args).update(key, traces[form], chm_of(cons, vc), ())
+                        traces[form] = tr
+                        results.append(obs(tr, w, bwd, form=form, a1=a1))
+                    elif op == "assess_tr":      # assess at the arguments the trace records
+                        v = H.valobj[cur["v"]]
+                        s, r = dist.assess(ChoiceMap.choice(v), traces[form].get_args())
+                        results.append(dict(v1=H.vid(r), s1=_fx(s), w=0, disc=0, dt="", shp=[]))
                     elif op == "regenerate":
                         ad = Diff.unknown_change(args) if changed else Diff.no_change(args)
                         s = Selection.all() if sel else Selection.none()
                         tr, w, _rd, bwd = dist.edit(key, traces[form], Regenerate(s), ad)
                         traces[form] = tr
-                        results.append(obs(tr, w, bwd))
+                        results.append(obs(tr, w, bwd, form=form, a1=a1))
                         fresh = bool(sel)
                     elif op == "project":
                         s = Selection.all() if sel else Selection.none()
@@ -345,8 +377,9 @@ def _run_history(name, row, hid, key, tag, specs, kwtwin, sample_shape=None, ops
                 status = "raised:" + type(ex).__name__
                 results = []
                 H.last_error = "closure form: " + repr(ex)[:280]
-        lop = {"importance": "generate", "trupdate": "update"}.get(op, op)
-        emit(lop, cons, sel, a1, vc_id, fresh, results, status)
+        lop = {"importance": "generate", "trupdate": "update", "trupdate0": "update", "clupdate": "update",
+               "assess_tr": "assess"}.get(op, op)
+        emit(lop, cons, sel, a1, vc_id, fresh, results, status, via=op)
         if status != "ok":
             H.events[-1]["error"] = getattr(H, "last_error", "")
         return status == "ok"
@@ -363,6 +396,13 @@ def _run_history(name, row, hid, key, tag, specs, kwtwin, sample_shape=None, ops
         step("project", sel=1)
         step("project", sel=0)
     step("update", "none", a1=2)                                       # value kept, args a -> b
+    # follow-ups that READ the arguments back from the updated trace, and the closure spelling of update with bound
+    # parameters that differ from the trace's
+    step("assess_tr")                                                  # assess at tr.get_args(): must be LP(b, v)
+    step("trupdate0", "value", vc=draw(1))                             # Trace.update, default argdiffs: stays under b
+    step("clupdate", "none", a1=1)                                     # dist(a).update(key, tr_b, empty, ()): b -> a
+    step("clupdate", "value", a1=2, vc=draw(1))                        # dist(b).update(key, tr_a, value, ()): a -> b
+    # (now again: arguments b, a value drawn under a)
     if kind == "short":
         step("update", "value", a1=1, vc=draw(1))
         step("generate", "value", a1=1, vc=draw(1))
@@ -519,7 +559,7 @@ INVARIANT Done
 CHECK_DEADLOCK FALSE
 """
 
-MAIN_CLAUSES = ("C24.run", "C24.score", "C24.weight", "C24.value", "C24.support", "C24.dtype", "C24.shape", "C24.kwargs")
+MAIN_CLAUSES = ("C24.run", "C24.score", "C24.weight", "C24.value", "C24.args", "C24.support", "C24.dtype", "C24.shape", "C24.kwargs")
 ACTIONS = ("Simulate", "Assess", "Generate", "Update", "Regenerate", "Project", "Undo")
 # rough relative cost of a history (rejection samplers / special functions are slow to compile): heavy first
 
@@ -618,7 +658,7 @@ def run(prop_id, tier, seed, replay=None):
         if clause == "MACH.chain":
             raise vlib.MachineryError(f"driver history out of step at event {e['n']} ({e['dist']}/{e['tag']}/{e['op']})")
         if clause in MAIN_CLAUSES:
-            sig = dict(clause=clause, dist=e["dist"], op=e["op"], cons=e["cons"], tag=e["tag"].rstrip("0123456789"))
+            sig = dict(clause=clause, dist=e["dist"], op=e["op"], via=e["via"], cons=e["cons"], tag=e["tag"].rstrip("0123456789"))
             if clause == "C24.run":
                 sig["exc"] = e["status"]
             rep.violation(sig, dict(event=e, verdict=v))
@@ -631,12 +671,12 @@ def run(prop_id, tier, seed, replay=None):
     nonfin = []
     for e in events:
         if e["status"] == "ok" and e["fin"]:
-            rep.nontrivial.add((e["dist"], e["tag"], e["op"], e["cons"], e["sel"], e["a0"], e["a1"]))
+            rep.nontrivial.add((e["dist"], e["tag"], e["via"], e["cons"], e["sel"], e["a0"], e["a1"]))
         if e["status"] == "ok" and not e["fin"]:
             nonfin.append(f'{e["dist"]}/{e["tag"]}/{e["op"]}/{e["cons"]}')
         per_dist[e["dist"]] = per_dist.get(e["dist"], 0) + 1
     for e in events[:: max(1, len(events) // 4)]:
-        rep.sample({k: e[k] for k in ("dist", "tag", "op", "cons", "a0", "a1", "v0", "vc", "v1", "s0", "s1", "w", "lp0", "lp1", "lpc", "twins")})
+        rep.sample({k: e[k] for k in ("dist", "tag", "op", "via", "cons", "ar", "a0", "a1", "v0", "vc", "v1", "s0", "s1", "w", "lp0", "lp1", "lpc", "twins")})
     rep.rule = ("events = GFI operations run on the real wrappers (histories per wrapper x parameter point), each validated by "
                 "TLC against the DistGFI result operators with LP from TFP; non-trivial = distinct (wrapper, point kind, op, "
                 "constraint kind, selection, arg transition) with status ok and finite oracle densities")
